@@ -20,6 +20,15 @@ single token, `-` for the empty string.
                                    aggregate over ALL single substitutions (positions × 94 replacement characters); every
                                    individual failure is also emitted as its own `csdetect` line
   J csdetectagg <k> <hex original> <tried> <rejected> <exempt>     aggregate over random k-substitutions
+  C parsenumnz <hex>               model `parse_num_nonzero`
+  J cschunk <hex s> <splits> <cs>  engine fed in chunks at the given split points: SPEC checksum of the whole string
+  J csdisplay <route> <hex {:#} body> <hex Display>   Display = body # SPEC checksum (checksum::Formatter route)
+  J csdetectr <route> <k> <hex original> <hex corrupted> <verdict>     csdetectd through another parser (route)
+  J csdetectrall <route> 1 <hex original> <total> <rejected>           all single substitutions through a route
+  J nopanicagg <class> <route> <n> <npanic>     raw corpus: n calls under catch_unwind, npanic must be 0
+  J rawrt <route> <hex> <verdict> / J rawrtagg <class> <route> <n> <nbad>   accepted raw strings round-trip
+  J mustreject <route> <reason> <hex> <verdict>  designated malformed strings must be refused
+  J treeapi <hex> <verdict>        TreeIterItem accessors and iterators agree with the node table
   J descaccept <hex descriptor#checksum> <verdict>   a well-formed descriptor carrying the SPEC checksum must be accepted
   J depthlimit <round|curly> <d> <verdict>   d-fold well-formed nesting is accepted iff d ≤ 403 = MAX_RECURSION_DEPTH + 1
                                    (C11.printed_tree_accepted_partial / printed_deep_tree_rejected)
@@ -132,6 +141,43 @@ def opsText (kind op : String) (args : List String) : Option String :=
     match Expr.parseNum s.toList with
     | .ok n => pure (toString n)
     | .error e => pure (numErrStr e)
+  | "C", "parsenumnz", [h] => do
+    let s ← unhex h
+    match Expr.parseNumNonzero s.toList with
+    | .ok n => pure (toString n)
+    | .error .illegalZero => pure "ERR:IllegalZero"
+    | .error (.num e) => pure (numErrStr e)
+  -- the engine fed in chunks (as `checksum::Formatter` does) must give the SPEC checksum of the whole
+  | "J", "cschunk", [h, _, cs] => do
+    let s ← unhex h
+    match Spec.Bch.create s.toList with
+    | some c => pure (okbadT (String.ofList c == cs))
+    | none => pure (okbadT (cs == "ERR:InvalidCharacter"))
+  -- Display of a descriptor (through `checksum::Formatter`): `{:#}` body ++ "#" ++ SPEC checksum of the body
+  | "J", "csdisplay", [_, hb, hp] => do
+    let b ← unhex hb
+    let p ← unhex hp
+    match Spec.Bch.create b.toList with
+    | some c => pure (okbadT (p == b ++ "#" ++ String.ofList c))
+    | none => pure "bad:body-not-in-charset"
+  -- a corrupted checksummed string offered to ANY parser (route = type / entry point) must be rejected
+  | "J", "csdetectr", [_, k, o, c, verdict] => judgeDetect false k o c verdict
+  | "J", "csdetectrall", [_, "1", h, total, rejected] => do
+    let s ← unhex h
+    let total ← total.toNat?; let rejected ← rejected.toNat?
+    pure (okbadT (Spec.Bch.check s.toList && total == s.toList.length * 94 && rejected == total))
+  -- raw corpus: aggregate of calls made under catch_unwind
+  | "J", "nopanicagg", [_, _, _, npanic] => pure (okbadT (npanic == "0"))
+  -- raw corpus, C10: a string a parser ACCEPTS gives an object that round-trips
+  | "J", "rawrt", [_, _, verdict] => pure (okbadT (verdict == "ok"))
+  -- (counts only: every failing string has its own `J rawrt` line)
+  | "J", "rawrtagg", [_, _, n, nbad] => do
+    let n ← n.toNat?; let nbad ← nbad.toNat?
+    pure (okbadT (nbad ≤ n))
+  -- designated malformed strings (one reason each) must be refused
+  | "J", "mustreject", [_, _, _, verdict] => pure (okbadT (verdict == "rejected"))
+  -- tree accessors / iterators agree with the node table
+  | "J", "treeapi", [_, verdict] => pure (okbadT (verdict == "consistent" || verdict == "rejected"))
   | "J", "cscreate", [h, cs] => do
     let s ← unhex h
     match Spec.Bch.create s.toList with
